@@ -471,6 +471,14 @@ def run(ctx):
     for what, q, job, i, cd, key, nontriv, sigbase, cc in todo:
         kind, root, count, mode = job.cases[i]
         ranks = job.results[i]["ranks"]
+        degs2 = (["@np1"] if job.np == 1 else []) + (["@count0"] if count == 0 else [])
+
+        def dsig(x, degs=degs2):      # same rule as in the first loop, for this case
+            cands = [x] + [x + d for d in degs]
+            for c in cands:
+                if c in ctx.known:
+                    return c
+            return cands[-1]
         head = "%s algorithm %s, np=%d (%s), %s root=%d count=%d" % (job.coll, job.algo, job.np, job.layout, KNAME[kind % 100] + ("(non-blocking)" if kind >= 100 else ""), root, count)
         sample = None
         if what == "check":
